@@ -213,6 +213,67 @@ Definition all_same {A} (eqb : A -> A -> bool) (l : list A) : bool :=
   | x :: l' => forallb (eqb x) l'
   end.
 
+(* ---------- compact cases: paths enumerated here, not printed ----------
+   Two exhaustive sub-spaces are large; the harness prints only their
+   parameters and the run-length-encoded observations, and the same
+   enumeration is rebuilt here (guarded by a count and by the first and last
+   path, which the harness prints in full). *)
+Definition esc_byte (upper : bool) (b : N) : str :=
+  let hex := if upper then hex_digit_upper else hex_digit_lower in
+  [37; hex (b / 16); hex (b mod 16)].
+
+Definition all_bytes : list N := map N.of_nat (seq 0 256).
+
+(* prefix %b0 %b1 for every b1 *)
+Definition sweep2_paths (prefix : str) (upper : bool) (b0 : N) : list str :=
+  map (fun b1 => prefix ++ esc_byte upper b0 ++ esc_byte upper b1) all_bytes.
+
+Fixpoint expand_runs {A} (runs : list (N * A)) : list A :=
+  match runs with
+  | [] => []
+  | (n, a) :: r => repeat a (N.to_nat n) ++ expand_runs r
+  end.
+
+(* short names for the three commonest observations *)
+Definition D1 (s : str) : obs := ODeliver 0 [VM [s]].
+Definition DV (s : str) : obs := ODeliver 0 [VS s].
+Definition R4 : obs := OStatus 400.
+
+Definition slashes (n : nat) : str := repeat 47 n.
+
+(* all lists of [n] gap widths in 1..3, first gap varying fastest *)
+Fixpoint gap_lists (n : nat) : list (list nat) :=
+  match n with
+  | O => [[]]
+  | S n' => flat_map (fun rest => map (fun g => g :: rest) [1; 2; 3]%nat) (gap_lists n')
+  end.
+
+Fixpoint join_gaps (segs : list str) (gaps : list nat) : str :=
+  match segs with
+  | [] => []
+  | s :: segs' =>
+      match segs' with
+      | [] => s
+      | _ => match gaps with
+             | g :: gaps' => s ++ slashes g ++ join_gaps segs' gaps'
+             | [] => s ++ slashes 1 ++ join_gaps segs' []
+             end
+      end
+  end.
+
+(* every slash placement: 1-2 leading, 1-3 per inner gap, 0-2 trailing *)
+Definition placements (segs : list str) : list str :=
+  flat_map (fun lead =>
+    flat_map (fun gaps =>
+      map (fun trail => slashes lead ++ join_gaps segs gaps ++ slashes trail) [0; 1; 2]%nat)
+      (gap_lists (length segs - 1)))
+    [1; 2]%nat.
+
+Definition enumeration_ok (ps : list str) (n : nat) (first last : str) : bool :=
+  (length ps =? n)%nat &&
+  option_eqb str_eqb (nth_error ps 0) (Some first) &&
+  option_eqb str_eqb (nth_error ps (length ps - 1)) (Some last).
+
 (* ---------- cases ---------- *)
 Inductive c03case :=
   (* independent paths against one table *)
@@ -223,7 +284,13 @@ Inductive c03case :=
      request target a byte (or a non-UTF-8 sequence) that hyper's request
      parser refuses before dropshot is called; [p] is the path component of
      the target *)
-| CLive (tbl : list (list tseg)) (items : list (bool * str * obs)).
+| CLive (tbl : list (list tseg)) (items : list (bool * str * obs))
+  (* [CPaths] over [sweep2_paths prefix upper b0] *)
+| CSweep2 (tbl : list (list tseg)) (prefix : str) (upper : bool) (b0 : N)
+          (first last : str) (runs : list (N * obs))
+  (* [CEquiv] over [placements segs] *)
+| CPlace (tbl : list (list tseg)) (segs : list str)
+         (first last : str) (runs : list (N * obs)).
 
 Definition judge_items tbl (items : list (str * obs)) : N :=
   worst (map (fun it => judge_item tbl (fst it) (snd it)) items).
@@ -242,14 +309,26 @@ Definition judge_live_item tbl (it : bool * str * obs) : N :=
     end
   else judge_item tbl p o.
 
+Definition judge_equiv tbl (items : list (str * obs)) : N :=
+  if negb (all_same str_eqb (map (fun it => spelling_norm (fst it)) items))
+  then V_MALFORMED
+  else if negb (all_same obs_eqb (map snd items))
+  then V_VIOLATION      (* equivalent spellings treated differently *)
+  else judge_items tbl items.
+
 Definition judge (c : c03case) : N :=
   match c with
   | CPaths tbl items => judge_items tbl items
-  | CEquiv tbl items =>
-      if negb (all_same str_eqb (map (fun it => spelling_norm (fst it)) items))
-      then V_MALFORMED
-      else if negb (all_same obs_eqb (map snd items))
-      then V_VIOLATION      (* equivalent spellings treated differently *)
-      else judge_items tbl items
+  | CEquiv tbl items => judge_equiv tbl items
   | CLive tbl items => worst (map (judge_live_item tbl) items)
+  | CSweep2 tbl prefix upper b0 first last runs =>
+      let ps := sweep2_paths prefix upper b0 in
+      let os := expand_runs runs in
+      if negb (enumeration_ok ps (length os) first last) then V_MALFORMED
+      else judge_items tbl (combine ps os)
+  | CPlace tbl segs first last runs =>
+      let ps := placements segs in
+      let os := expand_runs runs in
+      if negb (enumeration_ok ps (length os) first last) then V_MALFORMED
+      else judge_equiv tbl (combine ps os)
   end.
